@@ -260,8 +260,6 @@ def _dumps_kvn(data, **kwargs):
     content = []
     for i, data in enumerate(data):
 
-        data.form = "cartesian"
-
         extras = {
             "START_TIME": "{:{}}".format(data.start, DATE_FMT_DEFAULT),
             "STOP_TIME": "{:{}}".format(data.stop, DATE_FMT_DEFAULT),
@@ -275,6 +273,8 @@ def _dumps_kvn(data, **kwargs):
         text = []
         cov = []
         for orb in data:
+            # work on a copy: the ephemeris of the caller keeps its form
+            orb = orb.copy(form="cartesian")
             text.append(
                 "{date:{dfmt}} {orb[0]:{fmt}} {orb[1]:{fmt}} {orb[2]:{fmt}} {orb[3]:{fmt}} {orb[4]:{fmt}} {orb[5]:{fmt}}".format(
                     date=orb.date,
